@@ -239,6 +239,7 @@ class Interp:
         self.ref = XRef(self.nodes, self)
         self.flags = {}
         self.stats = {}          # dynamic coverage counters (what was actually instantiated)
+        self.undeclared_stack = [set()]   # per running template instance: names passed to it that it does not declare
         self.fuel = fuel
         self.templates = []
         self.named = {}
@@ -519,6 +520,13 @@ class Interp:
     def instantiate(self, tm, cx, params, b, mode):
         env = {}
         plist = []
+        declared = set(n for n, _ in tm.params)
+        undeclared = set(params) - declared
+        for n in undeclared:
+            self.stat("with-param-not-declared-by-template")
+            if n in self.globals:
+                self.stat("undeclared-with-param-named-like-a-global")
+        self.undeclared_stack.append(undeclared)
         saved = self.vt_push(["T", self.eid(tm), plist])
         try:
             for name, vdef in tm.params:
@@ -534,6 +542,7 @@ class Interp:
                 plist.append((name, self.new_inst(vdef, first)))
             self.run(tm.body, cx, env, b, tm, mode)
         finally:
+            self.undeclared_stack.pop()
             self.vt_pop(saved)
 
     def avt(self, parts, cx, env):
@@ -835,6 +844,9 @@ class _Env(dict):
             it.useidx += 1
         if dict.__contains__(self, k):
             return dict.__getitem__(self, k)
+        if k in it.undeclared_stack[-1]:
+            # 11.6: a with-param the template does not declare is ignored: the reference sees the top-level binding
+            it.stat("global-read-while-same-named-with-param-was-passed-but-not-declared")
         saved = (self.interp.ref.vars, self.interp.ref.current)
         try:
             return self.interp.gvalue(k)
